@@ -53,6 +53,9 @@ def site_of(d):
         return "relation_with(grid_generator):empty-not-marked"
     if op == "diff" and k == "state" and (g("div_ne1") == "1" or g("tgt_pbp") == "1"):
         return "difference_assign:consequence-of-relation_with(cg)-defects"
+    if (k == "state" and g("why") in ("zero-line-reported", "zero-parameter-reported")
+            and op in ("rmdims", "rmhigher", "fold", "mapdims", "telapse") and g("obj_is_target") == "1"):
+        return "null-generator-rows-left(remove/fold/map_space_dimensions,time_elapse)"
     if k == "ok" and g("obj_em") == "0" and g("obj_cu") == "0" and g("obj_gu") == "1" and g("obj_gm") == "0":
         return "OK()-false-after-update_congruences-from-unminimized-generators"
     return "-"
@@ -132,14 +135,19 @@ def minimise(chk, hx, judge, ctext, want):
 
 
 def run(chk):
-    chk.rule = ("two streams of histories over a pool of 4 Grid objects: dense (dimension 0-3, 4 constructions then 4-12 operations) and "
+    chk.rule = ("three streams of histories over a pool of 4 Grid objects: a lazy-state x operator x query matrix (object driven into one of 12 "
+                "lazy states -- congruences / generators / both up to date, minimized or not --, ONE operator among the affine, modular, "
+                "dimension-changing (embed, project, remove, map with cycles, expand, fold, concatenate) and binary ones, non-invertible "
+                "images collapsing several parameters/lines at once, then two queries read immediately; the op x flags coverage is in "
+                "histogram keys opflags:*), dense (dimension 0-3, 4 constructions then 4-12 operations) and "
                 "sparse (dimension 4-6, vectors touching 1-2 coordinates, 30% 'gappy' generator systems with a line/parameter "
                 "overlapping a later parameter column across >= 2 virtual dimensions); operations drawn from "
                 "add_congruence(s), refine_with_congruence, add_grid_generator(s), intersection_assign, upper_bound_assign, "
                 "affine_image, affine_preimage, add_space_dimensions_and_embed/project, remove_higher_space_dimensions, copy "
                 "construction, assignment, swap, the four description observers, OK(), is_empty, is_universe, is_discrete, "
                 "is_bounded, contains, strictly_contains, is_disjoint_from, ==, relation_with(Congruence), relation_with(Grid_Generator), "
-                "frequency, unconstrain, time_elapse_assign, difference_assign, generalized_affine_image/preimage (var, relsym, expr, d, modulus)); congruence moduli "
+                "frequency, unconstrain, time_elapse_assign, difference_assign, map_space_dimensions, remove_space_dimensions, "
+                "expand_space_dimension, fold_space_dimensions, concatenate_assign, generalized_affine_image/preimage (var, relsym, expr, d, modulus)); congruence moduli "
                 "in {0,1,2,3,4,6}, coefficients in [-4,4], generator divisors in {1,2,3}; after EVERY step the four descriptions "
                 "reported by every pool object are compared with the reference through the verified engine. evaluations = "
                 "individual comparisons made by the judge; a history is distinct by its text and non-trivial when at least 3 of "
@@ -154,6 +162,8 @@ def run(chk):
                         "a negative answer of gens_incl caused by a LINE of the left grid is not yet backed by a theorem "
                         "(positive answers, and negative answers caused by points/parameters, are)",
                         "saturates() of relation_with is compared only for space dimension > 0",
+                        "a reported generator system containing a null line or null parameter is treated as a failure (such rows cannot be "
+                        "built through the public interface and make is_discrete()/is_bounded() wrong)",
                         "the reference for difference_assign is glue over verified functions, not a theorem; reference unconstrain, "
                         "time_elapse, generalized image/preimage and subsumes are executable Coq definitions without spec theorems"]
     chk.prove(COQ_FILES)
@@ -211,6 +221,15 @@ def _run_histories(chk, hx, judge):
             txt = "".join(gen_grid.history(r2, "s%d" % (k + i), maxdim=6, sparse=True) for i in range(min(per, target2 - k)))
             batches.append(("sparse%d" % k, txt))
             k += per
+
+        # third stream: lazy-state x operator x query matrix (short cases: state driver, one operator, two queries)
+        r3 = random.Random(chk.seed * 15485863 + 17)
+        target3 = 2400 if chk.quick else 24000
+        k = 0
+        while k < target3:
+            txt = "".join(gen_grid.matrix_case(r3, "m%d" % (k + i)) for i in range(min(600, target3 - k)))
+            batches.append(("matrix%d" % k, txt))
+            k += 600
 
     hist = {}
     ncases = nfail = nunk = 0
